@@ -373,9 +373,34 @@ pub fn literal_spelling_programs() -> Vec<String> {
 /// destructuring, module) with values of different types: whichever declaration wins, the static type
 /// and the value must be those of the same one
 pub fn duplicate_name_programs() -> Vec<String> {
-    let pairs = [("1", "\"text\""), ("\"text\"", "1"), ("2.5", "[1]"), ("mut 1", "mut \"s\""), ("()", "(1, 2)"), ("1", "2")];
+    // (first value, second value, a use that needs the type of the first, a use that needs the type of the second)
+    let pairs = [
+        ("1", "\"text\"", "@ + 1", "@ + \"!\""),
+        ("\"text\"", "1", "@ + \"!\"", "@ + 1"),
+        ("2.5", "[1]", "@ * 2.0", "@[0] + 1"),
+        ("mut 1", "mut \"s\"", "@ += 1", "@ += \"x\""),
+        ("mut 1", "mut \"s\"", "@ = 2", "@ = \"t\""),
+        ("mut 1", "mut 2.5", "@ = 2", "@ = 3.5"),
+        ("()", "(1, 2)", "@ == ()", "@.0 + @.1"),
+        ("1", "2", "@ + 1", "@ - 1"),
+        ("[1.5]", "() -> int { return 7; }", "@[0] + 0.5", "@() + 1"),
+    ];
     let mut out = vec![];
-    for (v, w) in pairs {
+    for (v, w, use_v, use_w) in pairs {
+        // whichever declaration the checker goes by, the use it then admits must work on the value
+        for (use_of, shown) in [(use_v, "first"), (use_w, "second")] {
+            let _ = shown;
+            for (decl, name) in [
+                (format!("s := struct{{a := {v}, b := 2.5, a := {w}}};"), "s.a"),
+                (format!("t := *(mut int 3); s := struct{{a := {v}, n := t, a := {w}}};"), "s.a"),
+                (format!("(a, b, a) := ({v}, 2.5, {w});"), "a"),
+                (format!("m := mod {{ a := {v}; b := 2.5; a := {w}; }};"), "m.a"),
+            ] {
+                out.push(format!("{decl} r := {}; r", use_of.replace('@', name)));
+                out.push(format!("f := () -> any {{ {decl} r := {}; return r; }}; f()", use_of.replace('@', name)));
+            }
+            out.push(format!("f := (a: any, a: any) -> any {{ return 0; }}; g := (a: int, a: string) -> any {{ r := {}; return r; }}; g(1, \"s\")", use_of.replace('@', "a")));
+        }
         for text in [
             format!("s := struct{{a := {v}, b := 2.5, a := {w}}}; s.a"),
             format!("s := struct{{a := {v}, b := 2.5, a := {w}}}; x := s.a; (x, s)"),
@@ -469,9 +494,14 @@ pub fn missing_return_programs() -> Vec<String> {
         out.push(format!("{src}f := (c: bool, w: int|string) -> [int] {{ {c}; }}; f(false, \"s\") + [1]"));
     }
     // a bare `return` where a value is promised
-    for t in ["int", "string", "[int]", "(int, int)"] {
+    for (t, using) in [("int", "@ + 1"), ("string", "@ + \"!\""), ("[int]", "@[0] + std.len(@)"), ("(int, int)", "@.0 + @.1"), ("float", "@ * 2.0"), ("mut int", "@ += 1"), ("()->int", "@() + 1")] {
         out.push(format!("f := (c: bool) -> {t} {{ if c {{ return; }}; return f(true); }}; f(false)"));
         out.push(format!("f := (c: bool) -> {t} {{ return; }}; f(false)"));
+        // the result used as what was promised
+        out.push(format!("f := (c: bool) -> {t} {{ if c {{ return; }}; return f(true); }}; r := f(false); {}", using.replace('@', "r")));
+        out.push(format!("f := (c: bool) -> {t} {{ return; }}; {}", using.replace('@', "f(false)")));
+        out.push(format!("f := (xs: [{t}]) -> {t} {{ for x in xs~ {{ return x; }}; return; }}; r := f([]); {}", using.replace('@', "r")));
+        out.push(format!("f := (c: bool) -> {t} {{ loop {{ if c {{ return; }}; break; }}; return; }}; r := f(true); {}", using.replace('@', "r")));
     }
     out
 }
